@@ -111,18 +111,27 @@ class YowNoiseLayer(YowLayer):
                 pushname=config.pushname or self.DEFAULT_PUSHNAME,
                 short_connect=True
             )
-            if not self._in_handshake():
-                logger.debug("Performing handshake [username= %d, passive=%s]" % (username, passive) )
-                self._handshake_worker = WANoiseProtocolHandshakeWorker(
-                    self._wa_noiseprotocol, self._stream, client_config, local_static, remote_static,
-                    self.on_handshake_finished
-                )
-                logger.debug("Starting handshake worker")
-                self._stream.set_events_callback(self._handle_stream_event)
-                self._handshake_worker.start()
+            logger.debug("Performing handshake [username= %d, passive=%s]" % (username, passive) )
+            # Every login attempt gets its own protocol state, stream and segments queue: the handshake worker
+            # of an earlier attempt that was cut off may still be blocked on (or running with) those of its own
+            # attempt, and must neither consume nor alter anything that belongs to this one.
+            self._wa_noiseprotocol = protocol = WANoiseProtocol(
+                4, 0, protocol_state_callbacks=lambda state: self._on_protocol_state_changed(state, protocol)
+            )
+            self._stream = stream = BlockingQueueSegmentedStream()
+            self._incoming_segments_queue = segments_queue = Queue.Queue()
+            stream.set_events_callback(lambda event: self._handle_stream_event(event, stream, segments_queue))
+            self._handshake_worker = WANoiseProtocolHandshakeWorker(
+                protocol, stream, client_config, local_static, remote_static,
+                lambda e=None: self.on_handshake_finished(e, protocol)
+            )
+            logger.debug("Starting handshake worker")
+            self._handshake_worker.start()
 
-    def on_handshake_finished(self, e=None):
-        # type: (Exception) -> None
+    def on_handshake_finished(self, e=None, protocol=None):
+        # type: (Exception, WANoiseProtocol) -> None
+        if protocol is not None and protocol is not self._wa_noiseprotocol:
+            return  # the worker of an abandoned login attempt
         if e is not None:
             self.emitEvent(YowLayerEvent(self.EVENT_HANDSHAKE_FAILED, reason=e))
             data=WriteEncoder(TokenDictionary()).protocolTreeNodeToBytes(
@@ -138,7 +147,9 @@ class YowNoiseLayer(YowLayer):
         """
         return self._wa_noiseprotocol.state == WANoiseProtocol.STATE_HANDSHAKE
 
-    def _on_protocol_state_changed(self, state):
+    def _on_protocol_state_changed(self, state, protocol=None):
+        if protocol is not None and protocol is not self._wa_noiseprotocol:
+            return  # the worker of an abandoned login attempt
         if state == WANoiseProtocol.STATE_TRANSPORT:
             if self._rs != self._wa_noiseprotocol.rs:
                 config = self._profile.config
@@ -147,11 +158,13 @@ class YowNoiseLayer(YowLayer):
                 self._rs = self._wa_noiseprotocol.rs
             self._flush_incoming_buffer()
 
-    def _handle_stream_event(self, event):
+    def _handle_stream_event(self, event, stream, segments_queue):
         if event == BlockingQueueSegmentedStream.EVENT_WRITE:
-            self.toLower(self._stream.get_write_segment())
+            segment = stream.get_write_segment()
+            if stream is self._stream:
+                self.toLower(segment)
         elif event == BlockingQueueSegmentedStream.EVENT_READ:
-            self._stream.put_read_segment(self._incoming_segments_queue.get(block=True))
+            stream.put_read_segment(segments_queue.get(block=True))
 
     def send(self, data):
         """
